@@ -297,6 +297,9 @@ func (x *Unit) nextLoop() (int, loopSpec) {
 			if c.Loop == k && c.Kind == "decreases" {
 				ls.decs = append(ls.decs, c)
 			}
+			if c.Loop == k && c.Kind == "step" {
+				ls.steps = append(ls.steps, c)
+			}
 		}
 	}
 	return k, ls
@@ -526,6 +529,7 @@ func (x *Unit) runLoop(pre *State, lb loopBody, fl *flow, label string) *State {
 		dec0 = append(dec0, x.specEval(head, d.Expr, x.bodySpecCtx(head, lb.node)).T)
 	}
 	it := head.clone()
+	iterSnap := head.clone()
 	c := lb.cond(it)
 	exit := it.clone()
 	x.assume(exit, Not(c))
@@ -552,6 +556,14 @@ func (x *Unit) runLoop(pre *State, lb loopBody, fl *flow, label string) *State {
 		}
 		if x.fr.parent == nil && x.inlineDepth == 0 {
 			x.frameCheck(bs, fmt.Sprintf("loop%d.frame.preserved", k), lb.node)
+		}
+		for i, sc := range spec.steps {
+			// per-iteration clause: iter(e) is e at the head of this iteration
+			savedIter := x.iterState
+			x.iterState = iterSnap
+			g := x.specEval(bs, sc.Expr, x.bodySpecCtx(bs, lb.node))
+			x.iterState = savedIter
+			x.oblige(bs, fmt.Sprintf("loop%d.step", k), clauseLabel(sc, i), g.T, lb.node)
 		}
 		for i, d := range spec.decs {
 			d1 := x.specEval(bs, d.Expr, x.bodySpecCtx(bs, lb.node)).T
@@ -917,6 +929,7 @@ func (x *Unit) execSelect(st *State, s *ast.SelectStmt, fl *flow, label string) 
 		enabled T
 		known   bool
 		sendVal Val
+		chExpr  ast.Expr
 	}
 	var cases []*selCase
 	var deflt *ast.CommClause
@@ -934,10 +947,12 @@ func (x *Unit) execSelect(st *State, s *ast.SelectStmt, fl *flow, label string) 
 			sc.enabled, sc.known = x.sendEnabled(st, sc.ch)
 		case *ast.ExprStmt:
 			sc.recv = true
+			sc.chExpr = ast.Unparen(cm.X).(*ast.UnaryExpr).X
 			sc.ch = x.eval(st, ast.Unparen(cm.X).(*ast.UnaryExpr).X)
 			sc.enabled, sc.known = x.recvEnabled(st, sc.ch)
 		case *ast.AssignStmt:
 			sc.recv = true
+			sc.chExpr = ast.Unparen(cm.Rhs[0]).(*ast.UnaryExpr).X
 			sc.ch = x.eval(st, ast.Unparen(cm.Rhs[0]).(*ast.UnaryExpr).X)
 			sc.enabled, sc.known = x.recvEnabled(st, sc.ch)
 		}
@@ -958,6 +973,7 @@ func (x *Unit) execSelect(st *State, s *ast.SelectStmt, fl *flow, label string) 
 				et = ct.Elem()
 			}
 			val, ok := x.recvValue(a, sc.ch, et)
+			x.recordRecv(a, sc.chExpr, val, ok)
 			if as, isAs := sc.cc.Comm.(*ast.AssignStmt); isAs {
 				vals := []Val{val, ok}
 				for j, l := range as.Lhs {
@@ -1054,6 +1070,19 @@ func (x *Unit) execGo(st *State, s *ast.GoStmt) {
 		})
 	} else {
 		x.prepareCall(st, s.Call)
+	}
+	// a spawned literal under contract starts in the spawner's state: its requires are checked here
+	if lit, ok := ast.Unparen(s.Call.Fun).(*ast.FuncLit); ok {
+		if lb := x.eng.blockFor(x.pkg.PkgPath, x.litKey(lit)); lb != nil {
+			c := x.bodySpecCtx(st, s)
+			c.scope = x.pkg.Types.Scope().Innermost(lit.Body.Lbrace + 1)
+			c.pos = lit.Body.Lbrace + 1
+			for i, cl := range lb.ClausesOf("requires") {
+				g := x.specEval(st, cl.Expr, c)
+				x.oblige(st, "requires", "go "+lb.Key+":"+clauseLabel(cl, i), g.T, s)
+			}
+			x.calleesUsed[x.pkg.PkgPath+"."+lb.Key] = true
+		}
 	}
 	defer x.bumpEvent(st, "spawn")
 	// "at go NAME assert e": NAME is the spawned callee text or "lit" (evaluated just before the spawn)
